@@ -55,8 +55,8 @@ func (g *c5gen) structTy(depth int) *Ty {
 	}
 	for i := 0; i < n; i++ {
 		id := c5ids[r.intn(len(c5ids))]
-		if r.chance(8) {
-			id = int16(r.intn(300))
+		if r.chance(30) {
+			id = int16(1 + r.intn(300)) // the whole id-indexed range and a little beyond the threshold
 		}
 		if r.chance(3) {
 			id = int16(-1 - r.intn(5)) // negative ids are FieldID >= 32768
@@ -641,11 +641,139 @@ func (c *c5run) editsOn(tg *c5target, n int) {
 	}
 }
 
+// ---- dense sweeps over field ids under StoreChildrenById ----
+// The slot index of the id-indexed storage JUMPS (l = id), so the growth of the children slice depends on the exact ids
+// and on their order. A sweep case loads a LIST of small structs: every element struct has its own children slice, so
+// one case tries a whole range of id sequences (first wire field k for all k; pairs a < 16 <= b; triples; random),
+// on fresh slices (first load), on reused ones (second load with other sequences) and on lazily loaded children.
+
+func c5idStruct(ids []int) *Val {
+	t := &Ty{K: thrift.STRUCT, Name: "S"}
+	v := &Val{T: t}
+	for i, id := range ids {
+		ft := c5ty(thrift.I08)
+		t.Fields = append(t.Fields, &Fld{ID: int16(id), T: ft})
+		v.FIDs = append(v.FIDs, int16(id))
+		v.Fields = append(v.Fields, &Val{T: ft, I: int64((id + i) & 0x7f)})
+	}
+	return v
+}
+
+// the id sequences of sweep number k (the schedule is fixed, so one quick run covers all of it)
+func c5sweepSeqs(r *rng, k int) [][]int {
+	var seqs [][]int
+	k = k % 60
+	switch {
+	case k < 2: // first wire field = every id 1..300
+		for id := 1 + 150*k; id <= 150*(k+1); id++ {
+			seqs = append(seqs, []int{id})
+		}
+	case k < 6: // pairs a < 16 <= b, all b
+		a := []int{1, 15}[(k-2)/2]
+		lo := 16 + 143*((k-2)%2)
+		for b := lo; b < lo+143 && b <= 300; b++ {
+			seqs = append(seqs, []int{a, b})
+		}
+	case k < 18: // triples a < 16 <= b < c, all c for a few b
+		bs := []int{16, 31, 32, 47, 48, 64, 100, 104, 111, 112, 120, 200}
+		b := bs[k-6]
+		for c := b + 1; c <= 300; c += 1 + (300-b)/150 {
+			seqs = append(seqs, []int{1 + r.intn(15), b, c})
+		}
+	default: // random sequences (any order, 1..6 ids out of 1..300)
+		for i := 0; i < 100; i++ {
+			n := 1 + r.intn(6)
+			used := map[int]bool{}
+			var q []int
+			for len(q) < n {
+				id := 1 + r.intn(300)
+				if r.chance(30) {
+					id = []int{15, 16, 17, 32, 47, 48, 49, 104, 111, 112, 113, 239, 240, 241, 255, 256, 257}[r.intn(17)]
+				}
+				if !used[id] {
+					used[id] = true
+					q = append(q, id)
+				}
+			}
+			if r.chance(50) { // ascending order makes every step a jump ahead
+				for i := 1; i < len(q); i++ {
+					for j := i; j > 0 && q[j] < q[j-1]; j-- {
+						q[j], q[j-1] = q[j-1], q[j]
+					}
+				}
+			}
+			seqs = append(seqs, q)
+		}
+	}
+	return seqs
+}
+
+func c5sweepVal(seqs [][]int) *Val {
+	lt := &Ty{K: thrift.LIST, Elem: &Ty{K: thrift.STRUCT, Name: "S"}}
+	v := &Val{T: lt}
+	for _, q := range seqs {
+		v.Elems = append(v.Elems, c5idStruct(q))
+	}
+	return v
+}
+
+func (c *c5run) sweepCase(k int) {
+	r := c.g.r
+	nloads := 1 + r.intn(2)
+	for li := 0; li < nloads; li++ {
+		if li > 0 && r.chance(30) {
+			c.opPool()
+		}
+		seqs := c5sweepSeqs(r, k+li*(7+r.intn(40)))
+		if li > 0 { // other sequences meet the capacities the first load left behind
+			for i := len(seqs) - 1; i > 0; i-- {
+				j := r.intn(i + 1)
+				seqs[i], seqs[j] = seqs[j], seqs[i]
+			}
+		}
+		v := c5sweepVal(seqs)
+		rec := (k+li)%2 == 0
+		c.opLoad(rec, v)
+		c.opMarshal(nil)
+		seen := map[int]bool{}
+		for i := 0; i < 6 && len(seqs) > 0; i++ {
+			j := r.intn(len(seqs))
+			if seen[j] {
+				continue
+			}
+			seen[j] = true
+			p := []Step{{Kind: 2, N: int64(j)}}
+			if !rec {
+				c.opLoadAt(p, r.bool())
+			}
+			q := seqs[j]
+			c.opGet(p, Step{Kind: 1, N: int64(q[r.intn(len(q))])})
+			if r.chance(30) {
+				c.opGet(p, Step{Kind: 1, N: int64(1 + r.intn(300))})
+			}
+			if r.chance(30) {
+				c.opMarshal(p)
+			}
+		}
+		c.opMarshal(nil)
+	}
+}
+
 func genC05(r *rng, n int) {
 	for ci := 0; ci < n; ci++ {
 		g := &c5gen{r: r.fork()}
 		g.tg = newTgen(g.r)
 		g.tg.maxDepth = 2
+		if ci%5 == 4 {
+			bits := 1 | (ci/5%8)<<1 // StoreChildrenById with every combination of the other options
+			opts := &generic.Options{StoreChildrenById: true, StoreChildrenByHash: bits&2 != 0, NotScanParentNode: bits&4 != 0, UseNativeSkip: bits&8 != 0}
+			c := &c5run{g: g, opts: opts, pn: &generic.PathNode{}, hashes: map[string]uint64{}}
+			c.sweepCase(ci / 5)
+			fields := []string{fi(bits), "n0", fi(c.nops)}
+			fields = append(fields, c.ops...)
+			out.emit(501, fields...)
+			continue
+		}
 		bits := ci % 16
 		if r.chance(25) {
 			bits &= 3 // more weight on the storage options alone
